@@ -666,27 +666,65 @@ def _literals(ctx, SPEC):
         gaps, ov = T.check_partition([r for r, _, b_, _ in T.arms(tbl_m) if r is not None and not T.diverges(b_)], 0, (1 << 18) - 1)
         ctx.check(not gaps and not ov, R, "writer::compress_literals::partition", cb["file"], "size-format arms tile 0..2^18",
                   observed={"gaps": gaps, "overlaps": ov})
-        # slot order: type(2) format(2) regenerated(size_bits) compressed(size_bits)
-        ws = [x for x in hq.find(cb["body"], lambda x: x.get("k") == "MethodCall" and x["name"] == "write_bits" and
-                                 H.show(hq.peel(x["recv"])) == "writer")]
+        # slot order: type(2) format(2) regenerated(size_bits) compressed(size_bits).  The two members of the tuple the
+        # size-format table yields are identified by binding, not by name
+        fmt_lid = bits_lid = None
+        for st_ in hq.find(cb["body"], lambda x: x.get("k") == "LetStmt" and x.get("init") is not None and hq.peel(x["init"]) is tbl_m):
+            pt = st_["pat"]
+            if pt.get("k") == "Tuple" and len(pt["pats"]) == 2 and all(q.get("k") == "Bind" for q in pt["pats"]):
+                fmt_lid, bits_lid = pt["pats"][0]["lid"], pt["pats"][1]["lid"]
+        if fmt_lid is None:
+            raise Anchor("the size-format table's (format, bits) tuple is not bound by a let")
+        ws = [x for x in hq.find(cb["body"], lambda x: x.get("k") == "MethodCall" and x["name"] == "write_bits")]
         ws.sort(key=lambda x: x["sp"][0])
-        seq = [(H.show(hq.peel(x["args"][0])).replace("u8", "").replace("u32", ""), H.show(hq.peel(x["args"][1]))) for x in ws]
-        want = [("2", "2"), ("3", "2"), ("size_format", "2"), ("(literals.len() as )", "size_bits"), ("0", "size_bits")]
-        ctx.check(seq == want, R, "writer::compress_literals::slots", cb["file"],
-                  "header must be written as type(2) format(2) regenerated(size_bits) compressed(size_bits)", observed=seq, expected=want)
+        wrecv = sorted(set(c(x["recv"]) for x in ws))
+
+        def tok(n):
+            n = hq.peel(n)
+            while n.get("k") == "Cast" and hq.peel(n["e"]).get("k") in ("Lit", "Local"):
+                n = hq.peel(n["e"])
+            if n.get("k") == "Local" and n["lid"] == fmt_lid:
+                return "size_format"
+            if n.get("k") == "Local" and n["lid"] == bits_lid:
+                return "size_bits"
+            v = H.lit_val(n)
+            return str(v) if isinstance(v, int) and not isinstance(v, bool) else c(n)
         ix = hq.Index(cb)
-        t2 = [p["cond"] for p in ix.path_conditions(ws[0])] if ws else []
-        t3 = [p["cond"] for p in ix.path_conditions(ws[1])] if len(ws) > 1 else []
-        ctx.check(any(x.endswith(".1") and not x.startswith("!") for x in t2) and any(x.startswith("!") and x.endswith(".1") for x in t3) or
-                  (t2 and t3 and t3[0] == "!" + t2[0]), R, "writer::compress_literals::type-by-new-table", cb["file"],
-                  "type 2 (with table) iff a new table is sent, else 3 (treeless)", observed=[t2, t3])
+        # one row set per header slot (alternative calls in branches and branch-valued arguments alike)
+        def atomic(n):
+            n = hq.peel(n)
+            while n.get("k") == "Cast":
+                n = hq.peel(n["e"])
+            return n.get("k") == "Local" and n["lid"] in (fmt_lid, bits_lid)
+        slots = ix.group_alternatives([ix.call_rows([x], (0, 1), tok=tok, atomic=atomic) for x in ws])
+        nt = None            # the "a new table is sent" flag: the condition under which the type slot is 2
+        for cs, v in (slots[0] if slots else []):
+            if v == ("2", "2") and len(cs) >= 1:
+                nt = [c_ for c_ in cs if not c_.startswith("!")][-1:] or None
+                nt = nt[0] if nt else None
+        want = [sorted([([nt], ("2", "2")), (["!" + str(nt)], ("3", "2"))]), [([], ("size_format", "2"))],
+                [([], ("(core::slice::len($0) as u32)", "size_bits"))], [([], ("0", "size_bits"))]]
+        got = [[([c_ for c_ in cs if c_ in (nt, "!" + str(nt))], v) for cs, v in sl] for sl in slots]
+        ctx.check(got == want and len(wrecv) == 1 and wrecv[0].startswith("$"), R, "writer::compress_literals::slots", cb["file"],
+                  "header must be written as type(2 with a new table, else 3; 2 bits) format(2) regenerated(size_bits) compressed(size_bits)",
+                  observed=got, expected=want)
+        # the flag is the second member of the (table to use, new table?) choice, and it is what decides whether the
+        # table description is written
+        wt = [x for x in hq.find(cb["body"], lambda x: x.get("k") == "MethodCall" and x["name"] in ("encode", "encode4x"))]
+        okn = nt is not None and nt.endswith(".1") and bool(wt) and all(hq.Canon(cb)(x["args"][-1]) == nt for x in wt)
+        ctx.check(okn, R, "writer::compress_literals::type-by-new-table", cb["file"],
+                  "type 2 (with table) iff a new table is sent, else 3 (treeless); the same flag tells the Huffman encoder to write the table",
+                  observed={"flag": nt, "encode-with-table-arg": [hq.Canon(cb)(x["args"][-1]) for x in wt]})
         chg = [x for x in hq.find(cb["body"], lambda x: x.get("k") == "MethodCall" and x["name"] == "change_bits")]
-        ok = len(chg) == 1 and H.show(chg[0]["args"][0]) == "size_index" and H.show(chg[0]["args"][2]) == "size_bits"
+        ok = len(chg) == 1 and hq.peel(chg[0]["args"][0]).get("k") == "Local" and tok(chg[0]["args"][2]) == "size_bits" and len(ws) >= 4
         if ok:
             d = c.defs.get(hq.peel(chg[0]["args"][0])["lid"])
-            # size_index is taken between the regenerated-size write and the placeholder write
-            si = d[1]["sp"][0]
-            ok = ws[3]["sp"][0] < si < ws[4]["sp"][0] and H.show(hq.peel(d[1])) == "writer.index()"
+            # the patch position is taken between the regenerated-size write and the placeholder write
+            ok = d is not None and d[0] == "let" and not d[2]
+            if ok:
+                si = d[1]["sp"][0]
+                di = hq.peel(d[1])
+                ok = ws[-2]["sp"][0] < si < ws[-1]["sp"][0] and di.get("k") == "MethodCall" and di["name"] == "index" and c(di["recv"]) == wrecv[0]
         ctx.check(ok, R, "writer::compress_literals::compressed-size-backpatch", cb["file"],
                   "the compressed size is patched into the placeholder that follows the regenerated size")
         # stream count by format
